@@ -334,6 +334,7 @@ def pass_list_obligations(ctx):
 #   elaborate_module: normal exit of the first loop  =>  every namespace member has this module as its parent
 #   check_instance  : normal return                  =>  check_connectable returned normally for every connection
 # ---------------------------------------------------------------------------------------------------------------------
+@guarded("list")
 def orphanage_loop_obligations():
     import ast as _ast
     from pyvc import loader
